@@ -33,7 +33,10 @@ NpsScope == { o \in NpsOps :
 Ops == { <<"getitem", i>> : i \in Instruments }
        \cup NpsScope
        \cup { <<"ts-at", "ok">>, <<"ts-at", "negative">>, <<"ts-at-hint", "ok">>, <<"ts-at-hint", "bad">>,
-              <<"ts-no-opt", "ok">> }
+              <<"ts-no-opt", "ok">>,
+              \* the same queries across the numeric tower: a whole tick, a tick between two whole ticks given as a float and
+              \* as a fraction (the implementation interpolates; a read-only query it remains, whatever the argument)
+              <<"ts-no-opt", "whole">>, <<"ts-no-opt", "float">>, <<"ts-no-opt", "fraction">>, <<"ts-at", "float">> }
        \cup { <<"str">>, <<"repr">>, <<"eq-twin">>, <<"eq-other">>, <<"hash-events">>, <<"derived">>,
               <<"str-events">> }
        \* copying, pickling, iterating, indexing and introspecting are read-only uses too
